@@ -56,6 +56,10 @@ Section Sched.
       set (try := 1 / 2 * (bmax + bmin)) in *.
       assert (Ht1 : bmin + tl / 2 < try) by (unfold try; lra).
       assert (Ht2 : try < bmax - tl / 2) by (unfold try; lra).
+      (* over the reals the midpoint is strictly inside the bracket: the adjacent-floats exit never fires *)
+      assert (S1 : Rltb' bmin try = true) by (apply Rltb'_spec; lra).
+      assert (S2 : Rltb' try bmax = true) by (apply Rltb'_spec; lra).
+      rewrite S1, S2 in H. cbn [andb] in H.
       destruct (Rleb' target (effq p try)) eqn:He.
       + apply Rleb'_spec in He.
         apply IH in H; [|lra|lra].
@@ -87,6 +91,7 @@ Section Sched.
       destruct (Rltb' tl (bmax - bmin)) eqn:Hc; [|discriminate].
       apply Rltb'_spec in Hc.
       assert (Hw' : bmax - bmin <= tl * 2 ^ f * 2) by (simpl in Hw; lra).
+      destruct (Rltb' bmin (1 / 2 * (bmax + bmin)) && Rltb' (1 / 2 * (bmax + bmin)) bmax); [|discriminate].
       destruct (Rleb' target (effq p (1 / 2 * (bmax + bmin)))); apply IH; auto; lra.
   Qed.
 
